@@ -949,14 +949,18 @@ func (c *Client) StartSending() {
 		})
 	}
 
-	// take the initial set of messages that were enqueued and queue them.
+	// take the initial set of messages that were enqueued and queue them. The
+	// lock is not held whilst writing to the modify channel: the channel is drained
+	// by the sender, which can be waiting for AwaitConverged, which in turn reads
+	// the send queue's length under the lock.
 	c.qs.sendMu.Lock()
-	defer c.qs.sendMu.Unlock()
-	for _, m := range c.qs.sendq {
+	held := c.qs.sendq
+	c.qs.sendq = []*spb.ModifyRequest{}
+	c.qs.sendMu.Unlock()
+	for _, m := range held {
 		log.V(2).Infof("sending %s to modify channel", m)
 		c.q(m)
 	}
-	c.qs.sendq = []*spb.ModifyRequest{}
 }
 
 // StopSending toggles the client to stop sending messages to the server, meaning
